@@ -482,11 +482,14 @@ class FitBase(FileIOMixin, object):
     def data(self, new_data):
         self._set_new_data(new_data)
         # validate cost function
-        _data_and_cost_compatible, _reason = self._cost_function.is_data_compatible(self.data)
+        # check the data the cost function actually receives (e.g. only the y data for xy fits)
+        _data_node = self._nexus.get(self._cost_function._DATA_NAME)
+        _cost_data = self.data if _data_node is None else _data_node.value
+        _data_and_cost_compatible, _reason = self._cost_function.is_data_compatible(_cost_data)
         if not _data_and_cost_compatible:
             raise ValueError("Fit data and cost function are not compatible: %s" % _reason)
         self._set_new_parametric_model()
-        self._param_model._on_error_change_callbacks = [self._on_error_change]
+        self._param_model._on_error_change_callback = self._on_error_change
 
     @property
     def data_error(self):
